@@ -213,3 +213,70 @@ func zzC17_load() {
 	}
 	vReach("C17_load")
 }
+
+// zzC17_embedded: the embedded dictionaries. A symbolic (code, vendor | wildcard) query for every
+// loaded application id and for an unrelated one, resolved by the real indexes, against the reference
+// resolver over the public list of applications in load order: every key present and its
+// neighbours (absent codes, other vendors, child and unrelated applications) is covered by the
+// solver's case split. Plus: every AVP name of every application resolves to the latest definition
+// reachable through the parent chain, and every command and application id resolves.
+func zzC17_embedded() {
+	p := dict.Default
+	apps := p.Apps()
+	var ids []uint32
+	for _, a := range apps {
+		dup := false
+		for _, x := range ids {
+			if x == a.ID {
+				dup = true
+			}
+		}
+		if !dup {
+			ids = append(ids, a.ID)
+		}
+	}
+	ids = append(ids, 7777777) // an application no dictionary defines: falls back to base
+	var defs []zzDef
+	for _, a := range apps {
+		for _, d := range a.AVP {
+			defs = append(defs, zzDef{app: a.ID, code: d.Code, vendor: d.VendorID, name: d.Name, avp: d})
+		}
+	}
+	mode := vChoice("mode", 2)
+	if mode == 0 {
+		qApp := ids[vChoice("qapp", len(ids))]
+		qCode, qVendor := vU32("qcode"), vU32("qvendor")
+		if zzFlag("wildcard") {
+			qVendor = dict.UndefinedVendorID
+		} else {
+			vAssume(qVendor != dict.UndefinedVendorID)
+		}
+		got, gerr := p.FindAVPWithVendor(qApp, qCode, qVendor)
+		want := zzRefFind(defs, qApp, qCode, "", false, qVendor)
+		if want != nil {
+			vAssert(gerr == nil && got == want.avp, "embedded dictionaries: lookup by code yields the definition of the application, else its parents, else base; exact vendor or wildcard; latest wins")
+		} else {
+			vAssert(gerr != nil && got != nil && got.Code == qCode && got.Data.Type == datatype.UnknownType, "embedded dictionaries: an undefined numeric code yields an opaque placeholder and an error")
+		}
+	} else {
+		// concrete sweep over every name, command and application (no quantified input: evaluated by the
+		// engine on the real code, reported as a concrete sub-check)
+		for _, a := range apps {
+			for _, d := range a.AVP {
+				got, err := p.FindAVPWithVendor(a.ID, d.Name, dict.UndefinedVendorID)
+				want := zzRefFind(defs, a.ID, 0, d.Name, true, dict.UndefinedVendorID)
+				vAssert(err == nil && want != nil && got == want.avp, "every AVP name of every embedded application resolves to its latest definition")
+				_, terr := datatype.Decode(d.Data.Type, nil)
+				_ = terr
+				vAssert(d.Data.Type != datatype.UnknownType, "every embedded AVP has a declared data type")
+			}
+			for _, c := range a.Command {
+				got, err := p.FindCommand(a.ID, c.Code)
+				vAssert(err == nil && got != nil && got.Code == c.Code, "every embedded command resolves")
+			}
+			ra, err := p.App(a.ID)
+			vAssert(err == nil && ra != nil && ra.ID == a.ID, "every embedded application id resolves")
+		}
+	}
+	vReach("C17_embedded")
+}
